@@ -25,7 +25,11 @@ CLAIMED["C07"] = dict(cat="exploration", ref="DESIGN.md 3.6",
    text="Conservation oracle over the recorded history: recording evaluators yield generated rows (ragged/homogeneous keys, nested values, NaN/inf, unicode, newlines, non-string keys) and components carry generated params; the experiment runs without a file on simulated workers under a seeded schedule, with a plain file (in-process or written by simulated workers in schedule-dependent record order), with a .gz file, and interrupted at a record boundary then resumed; interaction rows, indices 1..N and parameter tables must equal what the components produced up to the documented normalisation, and all Results / Result.from_file must agree.",
    note="Trusted base: as C01; the oracle's normalisation is deliberately lenient (1e-5 float tolerance, list==tuple, int==float, absent==None, keys as str); row values JSON-representable, nested dict keys strings, reserved column names unused; one known finding (all rows of a triple empty) is listed in known_findings.json.",
    tech="deterministic simulation: seeded scheduler over simulated workers + crash at record boundary and restart, conservation oracle against recording components")
-PENDING = {k: "claimed in DESIGN.md; check under construction in this round (deterministic-simulation engine exists, driver not yet committed)" for k in ("C02","C04","C05","C12")}
+CLAIMED["C02"] = dict(cat="fault_enumeration", ref="DESIGN.md 3.2",
+   text="Crash-point enumeration: for each sampled (experiment, configuration, schedule) the finished transaction log (plain or .gz, written by simulated workers so the record order is schedule dependent) is cut at crash offsets and resumed by a freshly built identical experiment with recording evaluators; quick tier: every record boundary, +-1/+-2 bytes, byte before each newline, three interior offsets per record, n in {0,1}; thorough tier additionally enumerates every byte offset 0..len(F) for a quarter of the logs; second-generation crashes and resumes on simulated workers are sampled. Oracle: resumed run returns normally, Result equals the uninterrupted one, no restored triple is evaluated again, no record is written twice, the file is readable afterwards.",
+   note="Trusted base: a crash leaves a byte-prefix of the flushed stream (durability below flush() is out of reach); simulated multiprocessing as C01; experiments/schedules are sampled, only the crash offset dimension is enumerated; one known finding (zero-row triples are re-evaluated) is listed in known_findings.json.",
+   tech="deterministic simulation with crash-point enumeration: log written under a seeded schedule, every chosen byte-prefix restarted, history oracle over recording evaluators and the resulting file")
+PENDING = {k: "claimed in DESIGN.md; check under construction in this round (deterministic-simulation engine exists, driver not yet committed)" for k in ("C04","C05","C12")}
 NA = {
  "C06": "SequentialCB is a single-threaded loop whose outputs are a pure function of (environment, learner, mode); no schedule, clock, fault or crash point occurs in the property.",
  "C09": "Ordering/selection filters are pure functions of (input sequence, parameters, seed); nothing for a simulator to schedule or fault.",
